@@ -210,7 +210,7 @@ def body(ctx):
 
 
 def run(ctx):
-    hyp_run(ctx, 'c04.scenario', case_strategy(), body(ctx), ctx.pick(12, 250), shrink=True)
+    hyp_run(ctx, 'c04.scenario', case_strategy(), body(ctx), ctx.pick(12, 800), shrink=True)
 
 
 def replay(ctx, check, case):
